@@ -21,6 +21,7 @@ import TFV.Lemmas.Conv
 import TFV.Properties.C07
 import TFV.Properties.C08
 import TFV.Properties.C01
+import TFV.Lemmas.LnScale
 
 set_option exponentiation.threshold 3000
 
@@ -899,9 +900,9 @@ theorem good_ln_step (HR : ExpHalfRecipInv) {x a : TwoFloat} (hx : Good x) (ha :
         (f64lit 0x3ff0000000000000))) :=
   good_add_assign_tt ha (good_sub_tf (good_mul_tt hx (good_exp HR (good_neg ha))) lit_one_WF)
 
-/-- **`ln` is panic-free** on every argument satisfying the invariant (given `ExpHalfRecipInv`) -/
-theorem ln_pf (HR : ExpHalfRecipInv) (x : TwoFloat) (hx : Good x) : TwoFloat.ln.pf x = true := by
-  unfold TwoFloat.ln.pf
+/-- the core of `ln` (the three tests and the Newton body) is panic-free on every argument satisfying the invariant -/
+theorem lnCore_pf (HR : ExpHalfRecipInv) (x : TwoFloat) (hx : Good x) : TwoFloat.lnCore.pf x = true := by
+  unfold TwoFloat.lnCore.pf
   split_ifs
   · rfl
   · rfl
@@ -912,8 +913,8 @@ theorem ln_pf (HR : ExpHalfRecipInv) (x : TwoFloat) (hx : Good x) : TwoFloat.ln.
     rw [exp_pf_good (good_neg h0), exp_pf_good (good_neg h1), exp_pf_good (good_neg h2)]
     rfl
 
-theorem good_ln (HR : ExpHalfRecipInv) {x : TwoFloat} (hx : Good x) : Good (TwoFloat.ln x) := by
-  unfold TwoFloat.ln
+theorem good_lnCore (HR : ExpHalfRecipInv) {x : TwoFloat} (hx : Good x) : Good (TwoFloat.lnCore x) := by
+  unfold TwoFloat.lnCore
   split_ifs
   · exact good_from f64lit_WF_zero
   · exact good_NAN
@@ -922,6 +923,39 @@ theorem good_ln (HR : ExpHalfRecipInv) {x : TwoFloat} (hx : Good x) : Good (TwoF
     have h1 := good_ln_step HR hx h0
     have h2 := good_ln_step HR hx h1
     exact good_sub_tf (good_add_tt h2 (good_mul_tt hx (good_exp HR (good_neg h2)))) lit_one_WF
+
+theorem good_LN_2 : Good consts.LN_2 := by decide +kernel
+
+/-- the correction `200.0 * LN_2` of the rescaling branch -/
+theorem good_ln_shift : Good LnCore.shift := good_mul_ft _ good_LN_2
+
+/-- **`ln` is panic-free** on every argument satisfying the invariant (given `ExpHalfRecipInv`): directly (high word not
+below `2^-1000`, or `== 1`, or `<= 0`) or after one rescaling by `2^200`, which is exact and lifts the high word to at
+least `2^-874` -/
+theorem ln_pf (HR : ExpHalfRecipInv) (x : TwoFloat) (hx : Good x) : TwoFloat.ln.pf x = true := by
+  cases h3 : (x.hi <. LnCore.tinyLim)
+  · rw [LnCore.ln_pf_eq_lnCore x h3]; exact lnCore_pf HR x hx
+  · cases h2 : ROrd.isLe (base.impl_PartialOrd_f64_for_TwoFloat.partial_cmp x (f64lit 0x0000000000000000))
+    · have hv := LnScale.valid_of_tiny hx.1 h2 h3
+      rw [(LnScale.ln_tiny_eq_of_valid hv hx.2 h2 h3).2.2.1]
+      exact lnCore_pf HR _ (good_mul_tf _ hx)
+    · exact LnCore.ln_go_pf_succ_nonpos 7 x h2
+
+/-- every level of the recursion of `ln` preserves the invariant (whatever the fuel) -/
+theorem good_ln_go (HR : ExpHalfRecipInv) : ∀ (fuel : Nat) {x : TwoFloat}, Good x → Good (TwoFloat.ln.go fuel x)
+  | 0, _, _ => good_default
+  | fuel + 1, x, hx => by
+    cases h3 : (x.hi <. LnCore.tinyLim)
+    · rw [LnCore.ln_go_succ_of_ge fuel x h3]; exact good_lnCore HR hx
+    · cases h1 : base.impl_PartialEq_f64_for_TwoFloat.eq x (f64lit 0x3ff0000000000000)
+      · cases h2 : ROrd.isLe (base.impl_PartialOrd_f64_for_TwoFloat.partial_cmp x (f64lit 0x0000000000000000))
+        · rw [LnCore.ln_go_succ_tiny fuel x h1 h2 h3]
+          exact good_sub_tt (good_ln_go HR fuel (good_mul_tf _ hx)) good_ln_shift
+        · rw [LnCore.ln_go_succ_of_nonpos fuel x h2]; exact good_lnCore HR hx
+      · rw [LnCore.ln_go_succ_of_one fuel x h1]; exact good_lnCore HR hx
+
+theorem good_ln (HR : ExpHalfRecipInv) {x : TwoFloat} (hx : Good x) : Good (TwoFloat.ln x) :=
+  good_ln_go HR 8 hx
 
 theorem log_pf (HR : ExpHalfRecipInv) (x b : TwoFloat) (hx : Good x) (hb : Good b) :
     TwoFloat.log.pf x b = true := by
